@@ -1345,6 +1345,10 @@ func (c *Ctx) runHandlewalk(r *Report, cfg handlewalkConfig) map[*types.Func]str
 					r.exc(rule, construct, c.pos(pos), reason)
 					continue
 				}
+				if reason, ok := exc[v.id()+"|*"]; ok { // the whole (single, named) visitor function is exempt
+					r.exc(rule, construct, c.pos(pos), reason)
+					continue
+				}
 				if c.neverProduced(cp.name) {
 					r.exc(rule, construct, c.pos(pos), "variant "+cp.name+" is never constructed in library code (producer set empty)")
 					continue
